@@ -50,7 +50,7 @@ def gen_graph(rng, version):
     star = set()
     for _ in range(rng.randint(0, nseg + 3)):
         a, b = rng.choice(names), rng.choice(names)
-        if a == b and rng.random() < 0.9:
+        if a == b and rng.random() < 0.75:
             continue
         oa, ob = rng.choice('+-'), rng.choice('+-')
         inv = {'+': '-', '-': '+'}
@@ -89,6 +89,10 @@ def gen_case(rng, i):
     lines, names = gen_graph(rng, version)
     seg = rng.choice(names)
     factor = rng.choice([-1, 0, 1, 2, 2, 3, 3, 4])
+    if version == 'gfa1' and rng.random() < 0.2 and not any(l.startswith('L\t%s\t' % seg) and l.split('\t')[3] == seg for l in lines):
+        # a hairpin on the multiplied segment, with counts (listed once per end of the link)
+        o = rng.choice('+-')
+        lines.append('L\t%s\t%s\t%s\t%s\t4M\tRC:i:%d\tKC:i:%d' % (seg, o, seg, '-' if o == '+' else '+', rng.choice([40, 9, 7]), rng.choice([12, 100])))
     if rng.random() < 0.3:
         # identifiers of the form base*i already in use, consecutive runs included
         m = re.match(r'^(.*)\*(\d+)$', seg)
@@ -120,11 +124,16 @@ def build(case):
 
 
 def has_selflink(case):
+    """the recorded finding F19: a loop (both ends of the segment), a self-containment, or a hairpin together with link
+    distribution; a hairpin without distribution is multiplied correctly and stays inside the domain"""
     s = case['segment']
     for l in case['lines']:
         f = l.split('\t')
-        if f[0] in 'LC' and f[1] == s and f[3] == s:
+        if f[0] == 'C' and f[1] == s and f[3] == s:
             return True
+        if f[0] == 'L' and f[1] == s and f[3] == s:
+            if f[2] == f[4] or case['policy'] not in (None, 'off'):
+                return True
         if f[0] == 'E' and f[2][:-1] == s and f[3][:-1] == s:
             return True
     return False
